@@ -3,10 +3,11 @@ OFFSETS = ['harness/offsets_async.cc']
 ROOTS = ['c11_all2_resolve0', 'c11_all2_resolve1', 'c11_all2_reject', 'c11_all3_resolve0', 'c11_all3_resolve1', 'c11_all3_resolve2', 'c11_all3_resolvevoid', 'c11_all3_reject',
          'c11_any_resolve', 'c11_any_resolvevoid', 'c11_any_reject']
 UNITS = {'comb': dict(src='harness/w_c11.cc', mode='sel', roots=ROOTS, stubs_re=r'^_ZNK8Pistache5Async(8Resolver|9Rejection)cl|^_ZN8Pistache5Async7Private4Core9constructI')}
+UNITS['range'] = dict(src='harness/w_c11r.cc', mode='sel', roots=['c11_war_ctor', 'c11_war_fulfil'], stubs_re=r'^_ZNK8Pistache5Async(8Resolver|9Rejection)cl')
 HARNESSES = []
 def h(name, defs, desc, witness=True):
     n = defs.get('NIN', 2)
-    return dict(name=name, units=['comb'], file='c11_comb.c', defs=defs, unwind=5, hunwind=6, witness=witness,
+    return dict(name=name, units=[defs.pop('UNIT', 'comb')], file='c11_comb.c', defs=defs, unwind=5, hunwind=6, witness=witness,
                 bound='%d inputs, every order of settling, every fulfil/reject outcome per input, every 32-bit value' % n, desc=desc)
 HARNESSES += [
   h('all_n2', {'H_ALL': None, 'NIN': 2}, 'all-of over two int inputs: fulfils once after the last fulfilment with values in argument order; rejects once at the first rejection; later outcomes raise nothing'),
@@ -14,6 +15,8 @@ HARNESSES += [
   h('all_void3', {'H_ALL': None, 'NIN': 3, 'VOIDS': None}, 'all-of over three void inputs (resolveVoid)', witness=False),
   h('any_n2', {'H_ANY': None, 'NIN': 2}, 'any-of over two int inputs: takes exactly the first outcome; later outcomes raise nothing'),
   h('any_n3', {'H_ANY': None, 'NIN': 3}, 'any-of over three int inputs'),
+  h('range_n3', {'H_RANGE': None, 'NIN': 3, 'UNIT': 'range'}, 'range all-of (WhenAllRange<int, vector<int>>: DataT constructor + WhenContinuation): fulfils once after the last fulfilment with the values in argument order whatever the completion order; nothing after a rejection'),
+  h('range_n2', {'H_RANGE': None, 'NIN': 2, 'UNIT': 'range'}, 'range all-of over two inputs', witness=False),
   h('any_void2', {'H_ANY': None, 'NIN': 2, 'VOIDS': None}, 'any-of over two void inputs (resolveVoid)', witness=False),
 ]
 ASSUMPTIONS = [
@@ -22,5 +25,5 @@ ASSUMPTIONS = [
   'std::mutex via lock_guard is a held-flag; shared_ptr / exception_ptr are pointer copies; make_shared<CoreT<T>> + Core::construct are recording stubs',
   'each input promise settles exactly once (guaranteed by the promise core itself; outside this kernel)',
 ]
-OUTSIDE = ['Promise::then chains, attach-before/after-settle orders, value forwarding through Continuable/Chainer, the rethrow handler: the shared_ptr/vector/std::function-heavy part gave no verdict in 15 min during design (DESIGN.md section 2)',
-           'WhenAllRange (iterator form); more than 3 inputs']
+OUTSIDE = ['the rejection lambda of WhenAllRange::operator() (a closure inside a function template over promise iterators)', 'Promise::then chains, attach-before/after-settle orders, value forwarding through Continuable/Chainer, the rethrow handler: the shared_ptr/vector/std::function-heavy part gave no verdict in 15 min during design (DESIGN.md section 2)',
+           'more than 3 inputs']
